@@ -224,3 +224,68 @@ func VerifC08DecodeAnyBytes() {
 	verifAssertKnown("decode-allocation-bounded", alloc <= 1<<20 || alloc > 1<<28, "C08-alloc-from-wire-length", true)
 	verifReach("end")
 }
+
+// VerifC08RepeatedKeysOrder: many series of one channel with identical alignment keep their frame order through
+// the round trip (the sort must be stable in effect; Go's sort.Sort switches algorithm above 12 elements).
+func VerifC08RepeatedKeysOrder() {
+	n := verifParam("n", 14)
+	c := NewStatic(channel.Keys{verifK1}, []telem.DataType{telem.Uint8T}, DisableAlignmentCompression())
+	fr := frame.Frame{}
+	data := make([]byte, n)
+	// a first series with a larger alignment makes the input unsorted
+	fr = fr.Append(verifK1, telem.Series{DataType: telem.Uint8T, Data: []byte{0xEE}, Alignment: 7})
+	for i := 0; i < n; i++ {
+		data[i] = verifUint8("d")
+		fr = fr.Append(verifK1, telem.Series{DataType: telem.Uint8T, Data: []byte{data[i]}, Alignment: 3})
+	}
+	b, err := c.Encode(context.Background(), fr)
+	verifAssert("encode-no-error", err == nil)
+	out, derr := c.Decode(b)
+	verifAssert("decode-no-error", derr == nil)
+	verifAssert("repeated-count", out.Count() == n+1)
+	i := 0
+	for _, s := range out.Entries() {
+		if i < n {
+			verifAssert("repeated-keys-keep-frame-order", len(s.Data) == 1 && s.Data[0] == data[i] && s.Alignment == 3)
+		}
+		i++
+	}
+	verifReach("end")
+}
+
+// VerifC08UpdateBacklog: two sides that received the same sequence of channel-set updates agree on the numbering
+// of codec states, whether the updates were applied one at a time or were pending together.
+func VerifC08UpdateBacklog() {
+	types1 := map[channel.Key]telem.DataType{verifK1: telem.Uint8T}
+	types2 := map[channel.Key]telem.DataType{verifK1: telem.Uint8T, verifK2: telem.Uint16T}
+	enc := newCodec()
+	dec := newCodec()
+	// encoder: both updates pending together
+	enc.update(channel.Keys{verifK1}, types1)
+	enc.update(channel.Keys{verifK1, verifK2}, types2)
+	// decoder: one at a time
+	dec.update(channel.Keys{verifK1}, types1)
+	dec.processUpdates()
+	dec.update(channel.Keys{verifK1, verifK2}, types2)
+	d1, d2 := verifBytes("k1.data", 1), verifBytes("k2.data", 2)
+	fr := frame.Frame{}
+	fr = fr.Append(verifK1, telem.Series{DataType: telem.Uint8T, Data: d1})
+	fr = fr.Append(verifK2, telem.Series{DataType: telem.Uint16T, Data: d2})
+	b, err := enc.Encode(context.Background(), fr)
+	verifAssert("encode-no-error", err == nil)
+	out, derr := dec.Decode(b)
+	verifAssert("decode-no-error", derr == nil)
+	verifAssert("backlog-count", out.Count() == 2)
+	got1, got2 := false, false
+	for k, s := range out.Entries() {
+		if k == verifK1 && verifHSameBytes(s.Data, d1) && s.DataType == telem.Uint8T {
+			got1 = true
+		}
+		if k == verifK2 && verifHSameBytes(s.Data, d2) && s.DataType == telem.Uint16T {
+			got2 = true
+		}
+	}
+	verifAssert("backlog-roundtrip", got1 && got2)
+	verifAssert("backlog-same-numbering", enc.mu.seqNum == dec.mu.seqNum)
+	verifReach("end")
+}
